@@ -434,6 +434,24 @@ func init() {
 				}
 				alphabet = append(alphabet, p)
 			}
+			if m != nil && m.ranked && c.rng.Intn(2) == 0 {
+				// points that differ by less than the square root of the smallest float64 (where the table has them)
+				var tiny []int
+				for k, v := range m.pool {
+					if v == 0 || (v != 0 && v > -1e-160 && v < 1e-160) {
+						tiny = append(tiny, k)
+					}
+				}
+				if len(tiny) >= 3 {
+					y := alphabet[0][1]
+					for k := 0; k < 4 && k < len(tiny); k++ {
+						alphabet[k] = [2]int{tiny[c.rng.Intn(len(tiny))], y}
+						if k%2 == 1 {
+							alphabet[k] = [2]int{y, tiny[c.rng.Intn(len(tiny))]}
+						}
+					}
+				}
+			}
 			qs := &qtQueries{ks: []int{1, 2, 5}, mds: []int{0, 200}, filters: [][2]int{{1, 0}, {3, 1}}, m: m}
 			if m == nil || !m.ranked {
 				for i := 0; i < 4; i++ {
@@ -563,6 +581,13 @@ func qtRankedMap(c *ctx) *qtMap {
 	rec(l, r, 4)
 	for i := 0; i < 12; i++ {
 		set[l+(r-l)*c.rng.Float64()] = true
+	}
+	if l < 0 && r > 0 {
+		// values so close together around zero that the square of their difference is zero in float64: different points all
+		// the same
+		for _, v := range []float64{0, 5e-324, -5e-324, 1e-170, -1e-170, 1e-200} {
+			set[v] = true
+		}
 	}
 	w := r - l
 	for _, v := range []float64{l - w/3, l - w*2, math.Nextafter(l, math.Inf(-1)), math.Nextafter(r, math.Inf(1)), r + w/7, r + w*3} {
